@@ -57,8 +57,15 @@ func (v *Verifier) NewUnit(fn *ssa.Function) *Unit {
 		u.cx.fuel = bc.own.Unfold
 		if len(bc.own.UnfoldNames) > 0 {
 			u.cx.unfoldOnly = map[string]bool{}
+			u.cx.unfoldDepth = map[string]int{}
 			for _, n := range bc.own.UnfoldNames {
-				u.cx.unfoldOnly[n] = true
+				name, depth, has := strings.Cut(n, ":")
+				u.cx.unfoldOnly[name] = true
+				if has {
+					d := 1
+					fmt.Sscan(depth, &d)
+					u.cx.unfoldDepth[name] = d
+				}
 			}
 		}
 	}
@@ -98,6 +105,11 @@ func (u *Unit) Run() {
 		locals: map[*ssa.Alloc]*Term{}, iters: map[ssa.Value]*IterState{}, names: map[string]ssa.Value{}, nameAddr: map[string]bool{},
 		knownNN: map[string]bool{}, ghosts: map[string]*Term{}}
 	p.assume(Ge(u.entry.Get(u.cx, "alloc"), IntLit(0)))
+	for _, cn := range u.v.enc.compList {
+		if inv := u.refInvariant(cn, u.entry.Get(u.cx, cn), u.entry.Get(u.cx, "alloc")); inv != nil {
+			p.assume(inv)
+		}
+	}
 	for _, prm := range u.fn.Params {
 		name := prm.Name()
 		t := u.cx.Named("p_"+mangle(name)+fmt.Sprintf("_%d", len(u.paramList)), u.v.enc.SortOf(prm.Type())).WithT(prm.Type())
